@@ -508,6 +508,15 @@ type replay struct {
 	Ops      []vos.Op `json:"ops"`
 }
 
+func nonDefault(e *vsched.Exec) (r []string) {
+	for i, p := range e.Points {
+		if p.Chosen != 0 {
+			r = append(r, fmt.Sprintf("%d:%d/%d->T%d", i, p.Chosen, p.N, p.Tid))
+		}
+	}
+	return
+}
+
 func main() {
 	c = lib.New("C03", "fault_enumeration", 120*time.Second, 25*time.Minute)
 	baseGoroutines = runtime.NumGoroutine()
@@ -563,6 +572,7 @@ func main() {
 		if c.Thorough() {
 			maxJournals = 1000
 		}
+		vsched.WorkDaemons = []string{"store.OpenWith", "(*ImmuStore).precommit", "(*ImmuStore).preCommitWith"} // syncer and value-appending goroutines take part in the workload-thread phase
 		w := workload{name: "concurrent2", opts: syncedOpts}
 		var cur result
 		sc := sched.Scenario{Name: "concurrent2", Record: true, MaxSteps: 400000, Body: func(dir string) string {
@@ -601,7 +611,62 @@ func main() {
 		journals := map[[32]byte]bool{}
 		tot := map[string]any{"workload": "concurrent2", "journals": 0, "crash_points": 0, "images": 0, "distinct_images_checked": 0, "recovery_runs_crashed_again": 0, "second_level_images_checked": 0}
 		seenImg := map[[32]byte]bool{}
-		stx := sched.ExploreLocal(sc, 1, c.Deadline, func(e *vsched.Exec, obs string) bool {
+		if v := os.Getenv("C03_TRACE"); v != "" { // debugging aid: "policy:choice,choice,..."
+			var pol int
+			var chs []int
+			parts := strings.SplitN(v, ":", 2)
+			fmt.Sscan(parts[0], &pol)
+			if len(parts) > 1 && parts[1] != "" {
+				for _, x := range strings.Split(parts[1], ",") {
+					var n int
+					fmt.Sscan(x, &n)
+					chs = append(chs, n)
+				}
+			}
+			tr, obs, e := sched.TraceOnce(sc, chs, pol)
+			for i, l := range tr {
+				fmt.Println("TRACE", i, l)
+			}
+			fmt.Println("TRACE obs", obs, "failure", e.Failure, "focus", e.FocusAt, "points", len(e.Points))
+			for _, o := range vos.Journal {
+				fmt.Println("JOURNAL", o.Kind, filepath.Base(filepath.Dir(o.Path))+"/"+filepath.Base(o.Path), o.Off, len(o.Data), o.Note)
+			}
+			os.Exit(0)
+		}
+		if v := os.Getenv("C03_SCAN"); v != "" { // debugging aid: every single deviation under policy v: is a value written after the last ack?
+			var pol int
+			fmt.Sscan(v, &pol)
+			_, _, e0 := sched.TraceOnce(sc, nil, pol)
+			for i := e0.FocusAt; i < len(e0.Points); i++ {
+				for alt := 1; alt < e0.Points[i].N; alt++ {
+					chs := make([]int, i+1)
+					chs[i] = alt
+					_, obs, e := sched.TraceOnce(sc, chs, pol)
+					lastAck, lateVal := -1, -1
+					for k, o := range vos.Journal {
+						if o.Kind == "mark" {
+							lastAck = k
+						}
+						if o.Kind == "write" && strings.Contains(o.Path, "/val") {
+							lateVal = k
+						}
+					}
+					fmt.Printf("SCAN point %d alt %d/%d work=%b -> T%d obs=%s lateValueWrite=%v failure=%q\n", i, alt, e0.Points[i].N, e0.Points[i].Work, e.Points[i].Tid, obs, lateVal > lastAck, strings.SplitN(e.Failure, "\n", 2)[0])
+				}
+			}
+			os.Exit(0)
+		}
+		// at most 60% of the time budget; the sequential workloads follow
+		concDeadline := c.Start.Add(c.Deadline.Sub(c.Start) * 60 / 100)
+		// stage 1 (35% of the budget): explore schedules and collect the distinct journals
+		exploreDeadline := c.Start.Add(c.Deadline.Sub(c.Start) * 35 / 100)
+		type pendingJournal struct {
+			r                 result
+			devs, policy, seq int
+		}
+		var pending []pendingJournal
+		perPol := map[int]int{}
+		stx := sched.ExploreLocal(sc, 1, exploreDeadline, func(e *vsched.Exec, obs string) bool {
 			if e.Failure != "" {
 				c.Violate(lib.Violation{Sig: "workload-failed workload=concurrent2 " + strings.SplitN(e.Failure, "\n", 2)[0], Detail: e.Failure})
 				return true
@@ -617,20 +682,67 @@ func main() {
 				return true
 			}
 			journals[k] = true
+			if os.Getenv("C03_DEBUG") != "" {
+				// value-log writes not followed by an fsync of that file before an acknowledgement
+				pend := map[string]int{}
+				for _, o := range ops {
+					switch {
+					case o.Kind == "write" && strings.Contains(o.Path, "/val_"):
+						pend[o.Path]++
+					case (o.Kind == "fsync" || o.Kind == "fdatasync") && strings.Contains(o.Path, "/val_"):
+						pend[o.Path] = 0
+					case o.Kind == "mark":
+						n := 0
+						for _, v := range pend {
+							n += v
+						}
+						fmt.Printf("DEBUG journal %d policy=%d %s: unsynced value writes=%d choices=%v\n", len(journals), vsched.Policy, o.Note, n, nonDefault(e))
+					}
+				}
+			}
 			r := cur
 			r.ops = ops
-			sm := checkJournal(w, r, seenImg, opts)
+			devs := 0
+			for _, p := range e.Points {
+				if p.Chosen != 0 {
+					devs++
+				}
+			}
+			perPol[vsched.Policy]++
+			pending = append(pending, pendingJournal{r, devs, vsched.Policy, perPol[vsched.Policy]})
+			return len(journals) < 4*maxJournals && time.Now().Before(exploreDeadline)
+		})
+		// stage 2: crash-enumerate the collected journals: fewest deviations from the default schedule first, the
+		// three default-order policies in turn
+		sort.SliceStable(pending, func(i, j int) bool {
+			a, b := pending[i], pending[j]
+			if a.devs != b.devs {
+				return a.devs < b.devs
+			}
+			if a.seq != b.seq {
+				return a.seq < b.seq
+			}
+			return a.policy < b.policy
+		})
+		checked := 0
+		for _, pj := range pending {
+			if checked >= maxJournals || !time.Now().Before(concDeadline) {
+				break
+			}
+			sm := checkJournal(w, pj.r, seenImg, opts)
+			checked++
 			tot["journals"] = tot["journals"].(int) + 1
 			for _, f := range []string{"crash_points", "images", "distinct_images_checked", "recovery_runs_crashed_again", "second_level_images_checked"} {
 				tot[f] = tot[f].(int) + sm[f].(int)
 			}
 			quiesce()
-			return len(journals) < maxJournals && !c.Expired()
-		})
+		}
+		tot["distinct_journals_found"] = len(pending)
 		tot["schedules_explored"] = stx.Execs
+		tot["workload_thread_phase_schedules"], tot["workload_thread_phase_bound_completed"] = stx.WorkExecs, stx.WorkBound
 		tot["schedule_space_complete"] = stx.Complete
 		if !stx.Complete {
-			c.CapHit(fmt.Sprintf("workload concurrent2: crash enumeration limited to the first %d distinct journals of the schedule space (preemption bound 1)", len(journals)))
+			c.CapHit(fmt.Sprintf("workload concurrent2: schedule space not completed; %d distinct journals found, %d crash-enumerated (fewest deviations first)", len(pending), checked))
 		}
 		summaries = append(summaries, tot)
 		bs, _ := json.Marshal(tot)
